@@ -823,7 +823,11 @@ func c06Encode(p *core.Prog, r *core.Report) {
 	sort.Strings(names)
 	for _, n := range names {
 		got, ok := constVal(p, n)
-		r.Check(ok && got == spec.Offsets[n], "C06-R5", "constants", n+" = "+fmt.Sprint(spec.Offsets[n]), "-", "equals the sum of the specified field widths", fmt.Sprintf("constant is %d (resolved=%v), the layout implies %d", got, ok, spec.Offsets[n]))
+		if !ok {
+			r.Errorf("constant %s does not resolve (renamed or removed): cannot decide the offset", n)
+			continue
+		}
+		r.Check(got == spec.Offsets[n], "C06-R5", "constants", n+" = "+fmt.Sprint(spec.Offsets[n]), "-", "equals the sum of the specified field widths", fmt.Sprintf("constant is %d (resolved=%v), the layout implies %d", got, ok, spec.Offsets[n]))
 	}
 }
 
